@@ -42,6 +42,15 @@ func (cp *CachedPlanner) hash(ctx *PlanningContext) hashKey {
 	// so is the operation name: root steps carry it in their query string and it must agree
 	// with the operationName sent along with them
 	s := string(ctx.Operation.Operation) + " " + ctx.Operation.Name + " " + format.NewBufferedFormatter().FormatSelectionSet(ctx.Operation.SelectionSet)
+	// and the variable header: the selection set of a cached plan keeps pointing at the
+	// definitions of the operation it was planned for, and a variable the client leaves out
+	// is resolved to the default declared there
+	for _, vd := range ctx.Operation.VariableDefinitions {
+		s += " $" + vd.Variable + ":" + vd.Type.String()
+		if vd.DefaultValue != nil {
+			s += "=" + vd.DefaultValue.String()
+		}
+	}
 	sha1 := sha1.Sum([]byte(s))
 	return sha1
 }
